@@ -103,7 +103,7 @@ func checkC12(c *Ctx) *core.Result {
 	inlineHelper := func(callee *ssa.Function, depth int) bool {
 		return p.InModule(callee) && !anchored[callee] && depth <= 3 && len(callee.Blocks) <= 60
 	}
-	paths, err := ssax.EnumerateTraces(chk, inlineHelper, 2000)
+	paths, err := ssax.EnumerateTracesWith(chk, inlineHelper, 2000, traceConsts(p))
 	if err != nil {
 		r.Fail("K1", core.QualName(chk), "path enumeration", p.Pos(chk.Pos()), err.Error())
 	}
